@@ -11,7 +11,9 @@
 (* two threads interleave freely and the reader can move back to an older commit.               *)
 EXTENDS Naturals, FiniteSets
 
-CONSTANTS Threads, MaxCommits, Serialize
+CONSTANTS Threads, MaxCommits, Serialize,
+          Callbacks   \* TRUE: reloads only happen as watch callbacks, one per commit (ReloadPolicy::OnCommitWithDelay:
+                      \* every meta.json write spawns a thread that reloads); FALSE: threads reload whenever they like
 
 VARIABLES
   commit,     \* number of the newest commit in meta.json
@@ -19,17 +21,19 @@ VARIABLES
   exposed,    \* newest commit a completed reload has published so far (history variable)
   pc,         \* thread -> "idle" | "opened" | "warmed"
   loaded,     \* thread -> commit its unpublished searcher was built from
-  lock        \* holder of reload_lock, or "none"
-vars == <<commit, published, exposed, pc, loaded, lock>>
+  lock,       \* holder of reload_lock, or "none"
+  todo        \* commits whose watch callback has not started its reload yet
+vars == <<commit, published, exposed, pc, loaded, lock, todo>>
 
 Init ==
   /\ commit = 0 /\ published = 0 /\ exposed = 0
   /\ pc = [t \in Threads |-> "idle"] /\ loaded = [t \in Threads |-> 0]
-  /\ lock = "none"
+  /\ lock = "none" /\ todo = 0
 
 Commit ==
   /\ commit < MaxCommits
   /\ commit' = commit + 1
+  /\ todo' = todo + 1
   /\ UNCHANGED <<published, exposed, pc, loaded, lock>>
 
 Open(t) ==
@@ -37,12 +41,13 @@ Open(t) ==
   /\ IF Serialize THEN lock = "none" /\ lock' = t ELSE UNCHANGED lock
   /\ loaded' = [loaded EXCEPT ![t] = commit]
   /\ pc' = [pc EXCEPT ![t] = "opened"]
+  /\ IF Callbacks THEN todo > 0 /\ todo' = todo - 1 ELSE todo' = 0
   /\ UNCHANGED <<commit, published, exposed>>
 
 Warm(t) ==
   /\ pc[t] = "opened"
   /\ pc' = [pc EXCEPT ![t] = "warmed"]
-  /\ UNCHANGED <<commit, published, exposed, loaded, lock>>
+  /\ UNCHANGED <<commit, published, exposed, loaded, lock, todo>>
 
 Publish(t) ==
   /\ pc[t] = "warmed"
@@ -50,7 +55,7 @@ Publish(t) ==
   /\ exposed' = IF loaded[t] > exposed THEN loaded[t] ELSE exposed
   /\ pc' = [pc EXCEPT ![t] = "idle"]
   /\ IF Serialize THEN lock' = "none" ELSE UNCHANGED lock
-  /\ UNCHANGED <<commit, loaded>>
+  /\ UNCHANGED <<commit, loaded, todo>>
 
 Next == Commit \/ \E t \in Threads : Open(t) \/ Warm(t) \/ Publish(t)
 Spec == Init /\ [][Next]_vars
@@ -62,5 +67,7 @@ TypeOK ==
 NeverMovesBack == published >= exposed
 PublishedMonotone == [][published' >= published]_vars
 \* a reload that starts after a commit completed exposes at least that commit
+\* with one callback per commit, once every callback has run the reader serves the newest commit
+FreshAtRest == (Callbacks /\ todo = 0 /\ \A t \in Threads : pc[t] = "idle") => published = commit
 ReloadIsFresh == \A t \in Threads : pc[t] # "idle" => loaded[t] <= commit
 =============================================================================
